@@ -3,7 +3,7 @@ From Coq Require Import ZArith QArith Qcanon List Bool Permutation.
 Require Import QV.C02.Spec QV.C02.Model QV.C02.Proofs QV.C02.Proofs2 QV.C02.Proofs3.
 Require Import QV.C02.Stack QV.C02.ProofsStack QV.C02.Merge QV.C02.ProofsMerge QV.C02.Rewrite QV.C02.ProofsRw QV.C02.ProofsAccept.
 Require Import QV.C02.Flatten QV.C02.ProofsFlat QV.C02.Vol QV.C02.ProofsVol QV.C02.Params QV.C02.ProofsParams.
-Require Import QV.C02.ProofsAtomic QV.C02.ProofsR5.
+Require Import QV.C02.ProofsAtomic QV.C02.ProofsR5 QV.C02.Render QV.C02.ProofsRender QV.C02.ProofsClean.
 Import ListNotations.
 Open Scope Qc_scope.
 
@@ -360,6 +360,70 @@ Theorem C02_coinciding_windows_nonvacuous :
   end.
 Proof. exact coincide_example_ok. Qed.
 Print Assumptions C02_coinciding_windows_nonvacuous.
+
+(* ---- round 6: the second observation point, plotting.render(program, rate, render_measurements=True, time_slice)[2] -------- *)
+(* Render.render_meas = the measurement part of render() (slice validation, the strict overlap filter of an explicit slice,
+   the sample-count refusal), tied to the code by the CRender cases.  Whatever it reports for a program built from a
+   template is, as a multiset, what the template denotes (default slice), resp. exactly the denoted windows with
+   begin < end and begin + length > start (explicit slice): nothing extra, nothing missing, duplicates kept *)
+Theorem C02_render_windows : forall p en mm prog rate slice ws,
+  create_program p en mm = Program prog -> render_meas rate slice prog = ROk ws ->
+  Permutation ws (render_denote p en mm slice).
+Proof. exact render_windows. Qed.
+Print Assumptions C02_render_windows.
+
+(* total form: with the default slice nothing is refused for an acceptable assignment of a template that plays, as long as
+   duration x rate >= 1 (two samples) *)
+Theorem C02_render_total : forall p en mm rate,
+  must_accept p en = true -> plays p en = true -> 1 <= tdur p en * rate ->
+  exists prog ws, create_program p en mm = Program prog /\ render_meas rate None prog = ROk ws /\
+                  Permutation ws (denote p en mm).
+Proof. exact render_total. Qed.
+Print Assumptions C02_render_total.
+
+(* an explicit slice [0, e] covering the program reports every denoted window of positive length when the declarations
+   lie inside their nodes; a zero-length window at t = 0 or t = duration is reported by the default slice only
+   (C02_render_boundary_stamp: the hypothesis is needed; the class seed C02-10 moved into the default path) *)
+Theorem C02_render_whole_slice : forall p en mm prog rate e ws,
+  create_program p en mm = Program prog -> inside p en = true -> tdur p en <= e ->
+  Forall (fun w : window => 0 < snd w) (denote p en mm) ->
+  render_meas rate (Some (0, e)) prog = ROk ws -> Permutation ws (denote p en mm).
+Proof. exact render_whole_slice. Qed.
+Print Assumptions C02_render_whole_slice.
+Example C02_render_boundary_stamp :
+  let p := Atom false (EC (Q2Qc 2)) [(1%N, EC (Q2Qc 0), EC (Q2Qc 0)); (2%N, EC (Q2Qc 2), EC (Q2Qc 0))] in
+  match create_program p (fun _ => Q2Qc 0) Some with
+  | Program prog =>
+      match render_meas (Q2Qc 1) None prog, render_meas (Q2Qc 1) (Some (Q2Qc 0, Q2Qc 2)) prog with
+      | ROk ws, ROk ws' => (length ws =? 2)%nat && (length ws' =? 0)%nat && inside p (fun _ => Q2Qc 0)
+      | _, _ => false
+      end
+  | _ => false
+  end = true.
+Proof. exact render_boundary_stamp. Qed.
+
+(* ---- round 6: cleanup() of loops WITH dead nodes ------------------------------------------------------------------------- *)
+(* C02_cleanup_preserves needs wfl (no dead node).  For ANY loop whose inner nodes carry no waveform (ProofsR5.nowf; dead
+   nodes - leaves without waveform, inner nodes below which nothing is played - anywhere, with windows of their own)
+   cleanup() keeps the duration and reports exactly the windows of the tree without its dead non-root nodes
+   (Corr.prune, read additively by Corr.exec_windows): the specification clause of the CLoop cases, now a theorem of the
+   model.  Dead nodes last 0, so removing them moves nothing (third conjunct). *)
+Theorem C02_cleanup_is_prune : forall l, nowf l = true ->
+  nowf (cleanup l) = true /\ ldur (cleanup l) = ldur l /\ ldur (QV.C02.Corr.prune l) = ldur l /\
+  Permutation (loop_windows (cleanup l)) (QV.C02.Corr.exec_windows (QV.C02.Corr.prune l)).
+Proof. exact cleanup_is_prune. Qed.
+Print Assumptions C02_cleanup_is_prune.
+(* without dead nodes nothing is pruned *)
+Theorem C02_prune_nothing_without_dead_nodes : forall l, wfl l = true -> QV.C02.Corr.prune l = l.
+Proof. exact prune_wfl. Qed.
+Print Assumptions C02_prune_nothing_without_dead_nodes.
+Example C02_cleanup_is_prune_nonvacuous :
+  let w n b := (n, Q2Qc b, Q2Qc 1) : window in
+  let dead := Loop 2 None [w 1%N 0] [Loop 1 None [w 2%N 0] []] in
+  let l := Loop 2 None [w 0%N 0] [Loop 1 (Some (Q2Qc 2)) [w 3%N 1] []; dead; Loop 1 None [w 4%N 0] []] in
+  nowf l && negb (wfl l) && (length (loop_windows l) =? 14)%nat && (length (loop_windows (cleanup l)) =? 4)%nat
+  && (length (loop_windows (QV.C02.Corr.prune l)) =? 4)%nat = true.
+Proof. exact cleanup_is_prune_nonvacuous. Qed.
 
 (* non-vacuity: a reversed repetition inside a sequence with renaming satisfies the hypotheses of C02_windows and
    C02_inside (a program is produced, all declarations inside their nodes) and reports 4 windows *)
